@@ -21,6 +21,32 @@ def put(tag, body):
     b, e = "<!-- BEGIN %s -->" % tag, "<!-- END %s -->" % tag
     if b in s:
         s = re.sub(re.escape(b) + ".*?" + re.escape(e), lambda m: b + "\n" + body + e, s, flags=re.S)
+# per-property status
+import re as _re
+props = [json.loads(l) for l in open(os.path.join(V, "properties.jsonl"))]
+t3 = "| id | title | theorems in Props/<id>.v | quick run (cases, s) | fix commits | known findings | notes |\n|---|---|---|---|---|---|---|\n"
+for pr in props:
+    pid = pr["id"]
+    pj = os.path.join(V, "props", pid + ".json")
+    if not os.path.exists(pj) or json.load(open(pj)).get("disabled"):
+        t3 += "| %s | %s | — | not claimed yet | | | |\n" % (pid, pr["title"][:60])
+        continue
+    try:
+        th = _re.findall(r"^\s*Theorem\s+(\w+)", open(os.path.join(V, "coq", "Props", pid + ".v")).read(), flags=_re.M)
+    except OSError:
+        th = []
+    ev = {}
+    try:
+        ev = json.load(open(os.path.join(V, "evidence", pid + ".json")))
+    except (OSError, ValueError):
+        pass
+    cov = ev.get("coverage", {})
+    nf = len([k for k in fixed if k["property"] == pid])
+    nk = [k["id"] for k in known if k["property"] == pid]
+    t3 += "| %s | %s | %d (%s…) | %s cases, %s s | %d | %s | docs/notes/%s.md |\n" % (
+        pid, pr["title"][:60], len(th), ", ".join(th[:3]), cov.get("evaluations", "?"), ev.get("wall_s", "?"), nf,
+        ", ".join(nk) or "—", pid)
+put("STATUS", t3)
 put("FIXED", t1)
 put("KNOWN", t2)
 open(p, "w").write(s)
